@@ -42,7 +42,12 @@ type ExtrasConfig struct {
 	SysPct      int // block writes to system contract 0x1 / 0x2
 	SysZeroPct  int // chance that such a write is a zero write (may empty the contract: the shape both backends get wrong)
 	ZeroNoopPct int // block writes zero to an absent slot of a deployed-or-being-deployed contract
+	PreV014     bool // block carries a protocol version below 0.14.0 (PreV014Version): the state commitment of a state
+	// without Sierra classes is then the bare contracts root, so a chain crossing into 0.14.0 changes the formula
 }
+
+// PreV014Version is the protocol version used for blocks below the 0.14.0 crossing (>= 0.13.4: same block hash formula).
+const PreV014Version = "0.13.5"
 
 func DefaultExtrasConfig() *ExtrasConfig {
 	return &ExtrasConfig{V0141Pct: 40, TxPct: 55, L1Pct: 30, SierraPct: 25, MigratePct: 45, SysPct: 15, SysZeroPct: 0, ZeroNoopPct: 0}
@@ -59,7 +64,10 @@ func IsSysAddr(a string) bool { return a == "1" || a == "2" }
 func AddExtras(r *hx.RNG, g *Gen, reg *Registry, cfg *ExtrasConfig, spec *BlockSpec) (labels []string) {
 	spec.Version = "0.14.0"
 	v1 := true
-	if r.Chance(cfg.V0141Pct) {
+	if cfg.PreV014 {
+		spec.Version = PreV014Version
+		labels = append(labels, "version-pre-0.14")
+	} else if r.Chance(cfg.V0141Pct) {
 		spec.Version, v1 = "0.14.1", false
 		labels = append(labels, "version-0.14.1")
 	}
